@@ -30,7 +30,7 @@ Proof. exact ref_get_sound. Qed.
 (* the same for the reference iterators: every yielded item is a well-formed value inside the input *)
 Theorem reference_iterators_return_wf_fragments : forall l k a b,
   (In (IOk k a b) (ref_array_iter l) \/ In (IOk k a b) (ref_object_iter l)) -> located l a b.
-Proof. intros l k a b [H|H]; [exact (array_iterator_items_located l k a b H)|exact (object_iterator_items_located l k a b H)]. Qed.
+Proof. exact iterators_items_located. Qed.
 
 (* on well-formed input the validating walker is the tree lookup (so it rejects nothing it should find) *)
 Theorem reference_get_complete_on_wf : forall l v a b p a' b' v', ref_text true l = Some (v, a, b) ->
